@@ -65,8 +65,9 @@ type Contract struct {
 // DynCall: "dyncall <field> requires label:: expr" - an obligation at every call through a function value loaded
 // from a struct field of that name; the call's arguments are arg0, arg1, ...
 type DynCall struct {
-	Field  string
-	Clause *Clause
+	Field   string
+	Clause  *Clause
+	Ensures bool // assumed after the call instead of required before it
 }
 
 // Witness: a ghost out-parameter; "witness s = expr after callee#n" binds s to expr evaluated right
@@ -130,6 +131,26 @@ func (cs *ContractSet) parseFile(path, pkgPath string) error {
 	sc := bufio.NewScanner(f)
 	sc.Buffer(make([]byte, 1<<20), 1<<20)
 	var cur *Contract
+	var group []*Contract // other members of a "funcs" group: they receive a copy of cur's clauses at the end
+	var groups [][]*Contract
+	var leaders []*Contract
+	flush := func() {
+		if cur != nil && len(group) > 0 {
+			groups = append(groups, group)
+			leaders = append(leaders, cur)
+		}
+	}
+	defer func() {
+		flush()
+		for i, g := range groups {
+			l := leaders[i]
+			for _, c := range g {
+				key, file, line := c.Key, c.File, c.Line
+				*c = *l
+				c.Key, c.File, c.Line = key, file, line
+			}
+		}
+	}()
 	ln := 0
 	for sc.Scan() {
 		ln++
@@ -207,7 +228,44 @@ func (cs *ContractSet) parseFile(path, pkgPath string) error {
 			cs.Globals = append(cs.Globals, &GlobalInv{Pkg: pkgPath, Clause: &Clause{Label: label, Text: text, Expr: e, File: path, Line: ln}})
 			continue
 		}
+		if word == "funcs" || word == "func" {
+			flush()
+		}
+		if word == "funcs" {
+			// group: the clauses that follow apply to every listed function (one contract each)
+			var keys []string
+			for _, k := range strings.Split(rest, ",") {
+				if k = strings.TrimSpace(k); k != "" {
+					keys = append(keys, k)
+				}
+			}
+			if len(keys) == 0 {
+				return fmt.Errorf("%s:%d: empty funcs list", path, ln)
+			}
+			first := true
+			group = nil
+			for _, key := range keys {
+				full := key
+				if pkgPath != "" && !strings.Contains(key, "/") && !isQualifiedStd(key) {
+					full = pkgPath + "." + key
+				}
+				if _, dup := cs.ByKey[full]; dup {
+					return fmt.Errorf("%s:%d: duplicate contract for %s", path, ln, full)
+				}
+				c := &Contract{Key: full, Pkg: pkgPath, Loops: map[int]*LoopSpec{}, Arith: "int", File: path, Line: ln, Unroll: map[int]int{}}
+				cs.ByKey[full] = c
+				cs.Order = append(cs.Order, full)
+				if first {
+					cur = c
+					first = false
+				} else {
+					group = append(group, c)
+				}
+			}
+			continue
+		}
 		if word == "func" {
+			group = nil
 			key := strings.TrimSpace(rest)
 			assumed := false
 			if strings.HasSuffix(key, " assumed") {
@@ -374,8 +432,8 @@ func (cs *ContractSet) parseFile(path, pkgPath string) error {
 		case "dyncall":
 			fld, r2 := splitWord(rest)
 			kw, r3 := splitWord(r2)
-			if kw != "requires" {
-				return fmt.Errorf("%s:%d: dyncall <field> requires <expr>", path, ln)
+			if kw != "requires" && kw != "ensures" {
+				return fmt.Errorf("%s:%d: dyncall <field> requires|ensures <expr>", path, ln)
 			}
 			c, err := mk(r3)
 			if err != nil {
@@ -384,7 +442,7 @@ func (cs *ContractSet) parseFile(path, pkgPath string) error {
 			if c.Label == "" {
 				c.Label = strconv.Itoa(len(cur.DynCalls) + 1)
 			}
-			cur.DynCalls = append(cur.DynCalls, &DynCall{Field: fld, Clause: c})
+			cur.DynCalls = append(cur.DynCalls, &DynCall{Field: fld, Clause: c, Ensures: kw == "ensures"})
 		case "uses":
 			cur.Uses = append(cur.Uses, strings.Fields(rest)...)
 		case "trustframe":
